@@ -1,20 +1,22 @@
 (* C32 -- the interning protocol of AtomTable::build_with (src/atom_table.rs) for atoms that live in the shared
    table, as a transition system over arbitrary schedules: optimistic lookup on a snapshot, take the update lock,
    re-check that nothing was inserted since the snapshot (epoch comparison), insert, release.
-   The RCU/epoch library is abstracted: "same epoch" = "no insertion since the snapshot" (the table only grows,
-   so the table length identifies the epoch).  No proofs in this file. *)
+   The RCU/epoch library is abstracted to one epoch counter that every replacement of the shared structures bumps:
+   an insertion (the index set is cloned and replaced) and a growth of the string block (grow_new: the inner table is
+   replaced, the texts stay the same).  A thread remembers the epoch and the table length of its snapshot.
+   No proofs in this file. *)
 From Coq Require Import List NArith Bool Arith.
 From V Require Import C21.Model.
 Import ListNotations.
 
 Inductive pc :=
 | Idle
-| WantLock (s : text) (snap : nat)      (* looked s up in the snapshot of length snap: not found *)
-| Locked (s : text) (snap : nat)        (* holds the update lock, has not compared epochs yet *)
-| Checked (s : text).                   (* holds the lock, epochs were equal: about to insert *)
+| WantLock (s : text) (e n : nat)       (* looked s up in the snapshot taken at epoch e (table length n): not found *)
+| Locked (s : text) (e n : nat)         (* holds the update lock, has not compared epochs yet *)
+| Checked (s : text).                   (* holds the lock, epochs were equal: about to allocate and insert *)
 
 Record thread := { tpc : pc; todo : list text; finished : list (text * nat) }.
-Record state := { table : list text; lock : option nat; threads : list thread }.
+Record state := { table : list text; epoch : nat; lock : option nat; threads : list thread }.
 
 Fixpoint upd {A} (n : nat) (x : A) (l : list A) : list A :=
   match l, n with
@@ -23,11 +25,12 @@ Fixpoint upd {A} (n : nat) (x : A) (l : list A) : list A :=
   | y :: r, S k => y :: upd k x r
   end.
 
-Definition set_thread (st : state) (t : nat) (th : thread) (tbl : list text) (lk : option nat) : state :=
-  {| table := tbl; lock := lk; threads := upd t th (threads st) |}.
+Definition set_thread (st : state) (t : nat) (th : thread) (tbl : list text) (ep : nat) (lk : option nat) : state :=
+  {| table := tbl; epoch := ep; lock := lk; threads := upd t th (threads st) |}.
 
-(* one atomic step of thread t; recheck = false gives the broken protocol without the epoch comparison *)
-Definition step_gen (recheck : bool) (st : state) (t : nat) : state :=
+(* one atomic step of thread t; recheck = false gives the broken protocol without the epoch comparison;
+   block_full says whether the string block is exhausted at a given epoch (then the lock holder grows it first) *)
+Definition step_gen (recheck : bool) (block_full : nat -> bool) (st : state) (t : nat) : state :=
   match nth_error (threads st) t with
   | None => st
   | Some th =>
@@ -37,32 +40,37 @@ Definition step_gen (recheck : bool) (st : state) (t : nat) : state :=
       | [] => st
       | s :: r =>
         match lookup (table st) s 0 with
-        | Some i => set_thread st t {| tpc := Idle; todo := r; finished := (s, i) :: finished th |} (table st) (lock st)
-        | None => set_thread st t {| tpc := WantLock s (length (table st)); todo := r; finished := finished th |} (table st) (lock st)
+        | Some i => set_thread st t {| tpc := Idle; todo := r; finished := (s, i) :: finished th |} (table st) (epoch st) (lock st)
+        | None => set_thread st t {| tpc := WantLock s (epoch st) (length (table st)); todo := r; finished := finished th |}
+                             (table st) (epoch st) (lock st)
         end
       end
-    | WantLock s e =>
+    | WantLock s e n =>
       match lock st with
-      | None => set_thread st t {| tpc := Locked s e; todo := todo th; finished := finished th |} (table st) (Some t)
+      | None => set_thread st t {| tpc := Locked s e n; todo := todo th; finished := finished th |} (table st) (epoch st) (Some t)
       | Some _ => st                                   (* blocked on the mutex *)
       end
-    | Locked s e =>
-      if negb recheck || Nat.eqb e (length (table st)) then
-        set_thread st t {| tpc := Checked s; todo := todo th; finished := finished th |} (table st) (lock st)
-      else  (* somebody inserted in between: drop the lock and start over *)
-        set_thread st t {| tpc := Idle; todo := s :: todo th; finished := finished th |} (table st) None
+    | Locked s e n =>
+      if negb recheck || Nat.eqb e (epoch st) then
+        set_thread st t {| tpc := Checked s; todo := todo th; finished := finished th |} (table st) (epoch st) (lock st)
+      else  (* the structures were replaced in between: drop the lock and start over *)
+        set_thread st t {| tpc := Idle; todo := s :: todo th; finished := finished th |} (table st) (epoch st) None
     | Checked s =>
-      set_thread st t {| tpc := Idle; todo := todo th; finished := (s, length (table st)) :: finished th |}
-                 (table st ++ [s]) None
+      if block_full (epoch st) then
+        (* grow_new: a new block and a new inner table with the same texts; the epochs are read again; still locked *)
+        set_thread st t th (table st) (S (epoch st)) (lock st)
+      else
+        set_thread st t {| tpc := Idle; todo := todo th; finished := (s, length (table st)) :: finished th |}
+                   (table st ++ [s]) (S (epoch st)) None
     end
   end.
 
 Definition step := step_gen true.
-Definition run (st : state) (sched : list nat) : state := fold_left step sched st.
-Definition run_broken (st : state) (sched : list nat) : state := fold_left (step_gen false) sched st.
+Definition run (bf : nat -> bool) (st : state) (sched : list nat) : state := fold_left (step bf) sched st.
+Definition run_broken (bf : nat -> bool) (st : state) (sched : list nat) : state := fold_left (step_gen false bf) sched st.
 
 Definition init (tbl : list text) (work : list (list text)) : state :=
-  {| table := tbl; lock := None; threads := map (fun w => {| tpc := Idle; todo := w; finished := [] |}) work |}.
+  {| table := tbl; epoch := 0; lock := None; threads := map (fun w => {| tpc := Idle; todo := w; finished := [] |}) work |}.
 
 (* all (text, index) results of all threads *)
 Definition results (st : state) : list (text * nat) := flat_map finished (threads st).
